@@ -1534,6 +1534,20 @@ def convert_from_interleaved(args):
     if nargs % 2 == 1:
         # has output specified
         eq += f"->{''.join(symbol_map[ix] for ix in args[-1])}"
+    else:
+        # implicit output: like numpy, the indices that appear exactly once
+        # ordered by *label* (the symbols above follow first appearance)
+        counts = collections.Counter(
+            ix for term in inputs for ix in term if ix is not ...
+        )
+        try:
+            output = sorted(ix for ix, c in counts.items() if c == 1)
+        except TypeError:
+            output = None
+        if output is not None:
+            if ... in symbol_map:
+                output.insert(0, ...)
+            eq += f"->{''.join(symbol_map[ix] for ix in output)}"
     return eq, arrays
 
 
